@@ -144,13 +144,15 @@ STRING_FROM = [
 ]
 DIVERSE = [None, True, n(1), n("1.0"), n("1.5"), "a", "", [], [n(1)], ["a"], [n(1), n(2)], Ctx([("a", n(1))]), DATE, DURATION, RANGE, FN_LT]
 
-REGEX_SUBJECTS = ["", "a", "abc", "foobar", "abracadabra", "a b  c", "  abc ", "ABC", "aXbxc", "a1b22c333", "a;b;c;;", "é中\U0001F600", "a\U0001F600b", "hello\nworld", "x,y;z", "aaa"]
+REGEX_SUBJECTS = ["abracadabra 12345678", "hello world", "", "a", "abc", "foobar", "abracadabra", "a b  c", "  abc ", "ABC", "aXbxc", "a1b22c333", "a;b;c;;", "é中\U0001F600", "a\U0001F600b", "hello\nworld", "x,y;z", "aaa"]
 REGEX_PATTERNS = [
     "a", "b", "abc", "z", "^a", "a$", "^abc$", "^fo*b", "bra", "^a.*a$", "^bra", "hello.*world", ".", "a.c", "a*", "a+", "ab?c", "o{2}", "a{1,2}", "a{2,}",
     "a|b", "abc|foo", "(a|b)c", "(ab)+", "(a)(b)", "(b)(r)?", "[abc]", "[a-c]", "[^a-c]", "[a-c]+", "[0-9]+", "\\d", "\\d+", "\\s", "\\s+", "[;,]", ";", "\\.", "b\\s*c",
     "\U0001F600", "[é中]", "a\U0001F600", "A", "[A-Z]", "x", "(x)", " ", "a b", "  ",
+    # Unicode-aware classes under counted repetition (large compiled programs: the size limits of the regex engine are far away)
+    "\\w", "\\w+", "\\W", "\\W+", "\\w{6}", "^\\w{3}$", "\\w{3,6}", "(\\w{3})(\\w{3})", "\\w{2}\\d", "\\s\\w{5}", "\\S{8}", "\\d{9}", ".{9}", "\\w{9}\\w{9}", "\\w{11}", "[a-z]{11}", "\\S{3}\\s\\S{5}", "\\w{12}|\\w{5}", "\\D{10}",
     # outside the decided subset (counted as undecided; the calls are still checked for panics and named = positional)
-    "", "(", "a**", "*a", "a+?", "(?:a)", "(?i)a", "\\w+", "\\p{L}", "[a-c-[b]]", "\\bfoo", "a{,2}", "(a)\\1", "$", "^", "a|", "[", "\\",
+    "", "(", "a**", "*a", "a+?", "(?:a)", "(?i)a", "\\p{L}", "[a-c-[b]]", "\\bfoo", "a{,2}", "(a)\\1", "$", "^", "a|", "[", "\\",
 ]
 REGEX_FLAGS = [ABSENT, "", "i", "s", "x", "ix", "m", None, "q", "ii", "g", n(1)]
 REPLACEMENTS = ["", "x", "[$1]", "$1", "$2$1", "-", " ", "$0", "\\$", "$", "$1x", "$12", "\U0001F600", None, n(1)]
